@@ -15,7 +15,7 @@ pub fn check(w: &J) -> Result<(), String> {
     // speak about what an accepting / rejecting parser returns: on an input where parsing itself panics their statements
     // say nothing, so such an input is not a counterexample to them. (Panics in accessors of an accepted value, and
     // every panic on the write side, still count for the property whose oracle exercises them.)
-    if matches!(prop.as_str(), "C08" | "C09" | "C10" | "C11" | "C12" | "C13" | "C15" | "C18") && w.str("kind") == "bytes" {
+    if matches!(prop.as_str(), "C08" | "C09" | "C10" | "C11" | "C12" | "C13" | "C15" | "C18" | "C19") && w.str("kind") == "bytes" {
         let d = w.bytes("bytes");
         if catch_unwind(AssertUnwindSafe(|| crate::touch::parse_entry_points(&d))).is_err() {
             return Ok(());
